@@ -791,6 +791,46 @@ func WithExec(e *Exec, f func()) {
 var progress uint64
 var watchOnce bool
 
+// StuckHook, when set, is told about a managed thread that has been running for a minute without reaching a
+// scheduling point: site is the innermost function of the code under test on its stack.
+var StuckHook func(site, stack string)
+
+// spinningThread looks, in a dump of all goroutines, for a managed thread (started by spawn) that is running or
+// runnable and not parked in the runtime, and whose innermost frame outside the runtime and the standard library
+// belongs to the code under test and not to a harness file.
+func spinningThread(dump string) (site, stack string) {
+	for _, blk := range strings.Split(dump, "\n\n") {
+		if !strings.Contains(blk, "vrt.(*Exec).spawn") || strings.Contains(blk, "vrt.(*Exec).park(") {
+			continue
+		}
+		nl := strings.Index(blk, "\n")
+		if nl < 0 {
+			continue
+		}
+		head := blk[:nl]
+		if !strings.Contains(head, "[running") && !strings.Contains(head, "[runnable") {
+			continue
+		}
+		lines := strings.Split(blk[nl+1:], "\n")
+		for i := 0; i+1 < len(lines); i += 2 {
+			fn, file := lines[i], lines[i+1]
+			if strings.HasPrefix(fn, "verif/") || !strings.Contains(fn, "/") && !strings.Contains(fn, "xmpp") {
+				continue
+			}
+			if strings.Contains(fn, "gosrc.io/xmpp") {
+				if strings.Contains(file, "zz_verif_") {
+					return "", ""
+				}
+				if j := strings.Index(fn, "("); j > 0 && !strings.HasPrefix(fn[j:], "(*") {
+					fn = fn[:j]
+				}
+				return strings.TrimSpace(fn), blk
+			}
+		}
+	}
+	return "", ""
+}
+
 func startWatchdog() {
 	if watchOnce {
 		return
@@ -815,6 +855,11 @@ func startWatchdog() {
 			if idle >= 12 {
 				buf := make([]byte, 1<<20)
 				n := runtime.Stack(buf, true)
+				if site, stack := spinningThread(string(buf[:n])); site != "" && StuckHook != nil {
+					// a managed thread that is neither parked nor blocked: code under test that loops without ever
+					// reaching a scheduling point (a busy loop). That is a finding about the code, not about the machinery.
+					StuckHook(site, stack)
+				}
 				fmt.Fprintf(os.Stderr, "vrt: no scheduling progress for 60s: a thread is blocked outside the virtual runtime\n%s\n", buf[:n])
 				os.Exit(3)
 			}
